@@ -110,7 +110,29 @@ REPLAY(le_rename) { Val dummy; RLE a = mkle(wit, "A", dummy); std::map<RVAR, RVA
   RLE r = a.rename(ren); showle("rename(A)", r); showval(val);
   i128 cg = 0, ev = zval(a.constant()); for (auto it = a.begin(); it != a.end(); ++it) { auto kv = *it; uint64_t y = rho[kv.second.index()]; if (y == GV) cg += zval(kv.first); ev += zval(kv.first) * val[y]; }
   return wf(r) && zval(r.constant()) == zval(a.constant()) && coef(r, GV) == cg && eval(r, val) == ev; }
+// ---- PART 3: constraint systems rebuilt from the witness of INSYS (contracts.c): S_c.a[i] = constraint i (kind, constant),
+// S_m<i> = its map header (size), S_t<i>.a[j] = its terms, S_v<i><j> = value of the variable of term j, n = number of constraints
+typedef linear_constraint_system<ZN, VN> RSYS;
+static RLC mksyslc(const Wit &w, const std::string &c, const std::string &m, const std::string &t, const std::string &v, Val &val) {
+  RLE e(mkz(wz(w, c + ".f1.f1"))); uint64_t n = w.u(m + ".f0.f0.f0.f0.f1");
+  for (uint64_t j = 0; j < n && j < 2; j++) { std::string tj = t + ".a[" + std::to_string(j) + "]"; uint64_t idx = w.u(tj + ".f0.f1.f1");
+    e._map->insert(std::make_pair(mkvar(idx), mkz(wz(w, tj + ".f1")))); std::string vk = v + std::to_string(j); if (w.has(vk)) val[idx] = (i128)w.s(vk); }
+  RLC r(e, (RLC::kind_t)(uint32_t)w.u(c + ".f0")); show(c.c_str(), r); return r; }
+static RSYS mksys(const Wit &w, Val &val) { RSYS s; uint64_t n = w.u("n");
+  for (uint64_t i = 0; i < n && i < 3; i++) { std::string I = std::to_string(i); s._csts.push_back(mksyslc(w, "S_c.a[" + I + "]", "S_m" + I, "S_t" + I, "S_v" + I, val)); }
+  return s; }
+static bool sysholds(const RSYS &s, const Val &val) { for (auto &c : s) if (!holds(c, val)) return false; return true; }
+REPLAY(sys_is_false) { Val val; RSYS s = mksys(wit, val); showval(val); bool r = s.is_false(); bool allc = true; for (auto &c : s) allc = allc && c.expression().is_constant();
+  printf("  is_false() = %d, holds = %d\n", r, sysholds(s, val)); return (!r || !sysholds(s, val)) && (!allc || r == !sysholds(s, val)); }
+REPLAY(sys_is_true) { Val val; RSYS s = mksys(wit, val); showval(val); bool r = s.is_true(); printf("  is_true() = %d, holds = %d\n", r, sysholds(s, val)); return !r || sysholds(s, val); }
+REPLAY(sys_add) { Val val; RSYS s = mksys(wit, val); RLC c = mksyslc(wit, "c", "c_m", "c_t", "c_v", val); showval(val); bool pre = sysholds(s, val); size_t n0 = s.size();
+  bool dup = false; for (auto &d : s) dup = dup || d.equal(c);
+  s += c; printf("  size %zu -> %zu, held before = %d, c holds = %d, holds after = %d\n", n0, s.size(), pre, holds(c, val), sysholds(s, val));
+  return s.size() == n0 + (dup ? 0 : 1) && sysholds(s, val) == (pre && holds(c, val)); }
+REPLAY(sys_normalize) { Val val; RSYS s = mksys(wit, val); showval(val); RSYS r = s.normalize(); for (auto &c : r) show("normalize()[.]", c);
+  printf("  holds(input) = %d, holds(normalize()) = %d\n", sysholds(s, val), sysholds(r, val)); return r.size() <= s.size() && sysholds(r, val) == sysholds(s, val); }
 // the evaluation-only variants of the checks replay the same postcondition
 #define ALIAS(id) REPLAY(id##_eval) { return replay_##id(wit); }
 ALIAS(le_neg) ALIAS(le_add) ALIAS(le_sub) ALIAS(le_scale) ALIAS(le_scale_long) ALIAS(le_add_var) ALIAS(le_sub_var) ALIAS(le_rename)
+REPLAY(le_rename_q) { return replay_le_rename(wit); }
 int main(int argc, char **argv) { return replay_main(argc, argv); }
